@@ -788,6 +788,10 @@ class Collocator:
         ]
         self._debug(f"{timer} for filtering NaNs")
 
+        # Maybe there is no valid point left in one of the datasets?
+        if not lat1.size or not lat2.size:
+            return self.empty
+
         # We can search for spatial collocations (max_interval=None), temporal
         # collocations (max_distance=None) or both.
         if max_interval is None:
